@@ -16,7 +16,7 @@ import (
 	"github.com/pilosa/pilosa/internal/vx"
 )
 
-var c02Vals = []uint64{0, 1, 65535, 65536, 131072 + 5}
+var c02Vals = []uint64{0, 1, 65535, 65536, 65538, 131072 + 5} // 65538: the one missing bit between the two runs of payload 3
 
 var c02Batches = [][]uint64{
 	{0, 1},
@@ -32,6 +32,7 @@ var c02Payloads = [][]uint64{
 	{0, 65536},
 	{1, 65535, 131072 + 5},
 	{65536, 65537},
+	{65536, 65537, 65539, 65540}, // after optimize: two runs with a one-bit gap (run merge / run split paths)
 }
 
 type c02Inst struct {
@@ -74,7 +75,7 @@ func (in *c02Inst) sorted() []uint64 {
 
 func c02Universe() []uint64 {
 	u := append([]uint64{}, c02Vals...)
-	u = append(u, 7, 65537, 2, 131072)
+	u = append(u, 7, 65537, 2, 131072, 65539, 65540)
 	sort.Slice(u, func(i, j int) bool { return u[i] < u[j] })
 	return u
 }
